@@ -233,7 +233,7 @@ def run(prop, tier, replay):
             raise vlib.ToolError("scenario generation produced nothing")
         useful = [h for h in hists if any(s["op"] == "index" for s in h)]
         plain = [h for h in hists if not any(s["op"] == "index" for s in h)]
-        nscn = (144 if quick else 1200)
+        nscn = (108 if quick else 1200)
 
         def after_index(h, op):
             i = next((j for j, s in enumerate(h) if s["op"] == "index"), None)
@@ -263,7 +263,7 @@ def run(prop, tier, replay):
         for i, h in enumerate(picked):
             pool, metric = POOLS[(i + vlib.seed()) % len(POOLS)]
             scenarios.append(build_scenario(i + 1, h, pools[pool], metric, qsets[metric], variants, rnd,
-                                            nq=3, nvar=6 if quick else 10))
+                                            nq=2 if quick else 3, nvar=6 if quick else 10))
         scenarios += _pinned()
         gen_info = {"histories_generated_by_tlc": len(hists), "histories_with_index": len(useful), "histories_replayed": len(picked),
                     "query_universe": {m: len(q) for m, q in qsets.items()}, "variants": {k: len(v) for k, v in variants.items()},
